@@ -525,4 +525,66 @@ theorem askLoop_bounds (script : List Str) (att : Option Nat) (err : Option Err)
 
 end bounds
 
+/-! ### deciders (Model/Question.lean) and the decimal numerals `str(i)` -/
+
+/-- the decimal numeral of `i` is not empty, survives the stripping of the line that was read and is
+one item of a multi-select answer -/
+theorem toDigits_typable (i : Nat) :
+    Nat.toDigits 10 i ≠ [] ∧ bytesStrip (Nat.toDigits 10 i) = Nat.toDigits 10 i ∧
+    ∀ c ∈ Nat.toDigits 10 i, isWordChar c = true := by
+  have hd : ∀ c ∈ Nat.toDigits 10 i, c.isDigit = true :=
+    fun c hc => Nat.isDigit_of_mem_toDigits (by decide) (by decide) hc
+  refine ⟨Nat.toDigits_ne_nil, ?_, ?_⟩
+  · apply stripWith_none
+    intro c hc
+    have ⟨h1, h2⟩ := isDigit_range (hd c hc)
+    simp only [isByteSpace, Bool.or_eq_false_iff, beq_eq_false_iff_ne, ne_eq]
+    refine ⟨⟨⟨⟨⟨?_, ?_⟩, ?_⟩, ?_⟩, ?_⟩, ?_⟩ <;> (rintro rfl; revert h1 h2; decide)
+  · intro c hc
+    have h := hd c hc
+    simp only [Char.isDigit, Bool.and_eq_true, decide_eq_true_eq] at h
+    simp only [isWordChar, Bool.or_eq_true, Bool.and_eq_true, decide_eq_true_eq]
+    exact Or.inl (Or.inl (Or.inr ⟨h.1, h.2⟩))
+
+/-- a word has no white space that `_read_from_input` would strip -/
+theorem bytesStrip_of_word (p : Str) (h : ∀ c ∈ p, isWordChar c = true) : bytesStrip p = p := by
+  apply stripWith_none
+  intro c hc
+  have hw := h c hc
+  simp only [isByteSpace, Bool.or_eq_false_iff, beq_eq_false_iff_ne, ne_eq]
+  refine ⟨⟨⟨⟨⟨?_, ?_⟩, ?_⟩, ?_⟩, ?_⟩, ?_⟩ <;> (rintro rfl; revert hw; decide)
+
+theorem wordyB_iff (p : Str) : wordyB p = true ↔ p ≠ [] ∧ ∀ c ∈ p, isWordChar c = true := by
+  cases p <;> simp [wordyB]
+
+theorem typableB_iff (v : Str) : typableB v = true ↔ v ≠ [] ∧ bytesStrip v = v := by
+  cases v <;> simp [typableB]
+
+section congr
+variable (toInt : Str → Option Int) (choices : List Str) (multi : Bool) (default : Option Str)
+  (eof : Bool)
+
+/-- the loop sees a typed line only through what the validator makes of it -/
+theorem askLoop_congr_line (l1 l2 : Str) (rest : List Str) (att : Option Nat) (err : Option Err)
+    (h : lineResult toInt choices multi default l1 = lineResult toInt choices multi default l2) :
+    askLoop toInt choices multi default eof (l1 :: rest) att err =
+      askLoop toInt choices multi default eof (l2 :: rest) att err := by
+  by_cases hatt : att = some 0
+  · subst hatt; simp [askLoop_zero]
+  cases hp : promptCheck toInt choices multi default with
+  | error e =>
+    rw [askLoop_prompt_error toInt choices multi default eof _ att err e hatt hp,
+      askLoop_prompt_error toInt choices multi default eof _ att err e hatt hp]
+  | ok u =>
+    cases u
+    cases hl : lineResult toInt choices multi default l1 with
+    | ok a =>
+      rw [askLoop_cons_ok toInt choices multi default eof l1 rest att err a hatt hp hl,
+        askLoop_cons_ok toInt choices multi default eof l2 rest att err a hatt hp (h ▸ hl)]
+    | error e =>
+      rw [askLoop_cons_error toInt choices multi default eof l1 rest att err e hatt hp hl,
+        askLoop_cons_error toInt choices multi default eof l2 rest att err e hatt hp (h ▸ hl)]
+
+end congr
+
 end Clikit.Question
